@@ -14,7 +14,6 @@ from .. import core, impl, tlv
 from ..codecs import MODELLED, py_equal, impl_answer_dec
 from ..gen import Gen, Opts, module_text, ty_sx, val_sx, is_modelled
 
-LEVEL = 'exploration'
 CODECS = ['ber', 'der', 'per', 'uper', 'oer', 'jer', 'xer']
 TIME_LIMIT = 4.0        # seconds per decode of <= 4 KiB (a linear-time decoder needs milliseconds)
 MEM_LIMIT = 3 << 30
